@@ -3125,7 +3125,17 @@ class Diff(MapOverlap):
         return 0 if self.periods > 0 else -self.periods
 
 
+def _first_partition(frame):
+    return 0
+
+
+def _last_partition(frame):
+    return frame.npartitions - 1
+
+
 class FillnaCheck(Blockwise):
+    # ``skip_check`` must be a module-level function (not a lambda), otherwise
+    # the expression cannot be pickled
     _parameters = ["frame", "method", "skip_check"]
     operation = staticmethod(methods.fillna_check)
     _projection_passthrough = True
